@@ -17,7 +17,7 @@ func HC15_union() {
 	var members []an.Type
 	var calls []string
 	for i := 0; i < n; i++ {
-		nm := "M" + vfString(fmt.Sprint("member", i), 1, 1, "alnum")
+		nm := vfString(fmt.Sprint("member", i), 1, 2, "ident") // exported or not: every member is a possible value
 		for _, m := range members {
 			vfAssume(an.LocalName(m) != nm)
 		}
@@ -50,6 +50,13 @@ func HC15_struct() {
 			f.extra = ` gomacro-data:"ignore"`
 		case 2:
 			f.extra = ` gomacro-data:"other"`
+		}
+		// fields hidden from JSON or from the other generators are still populated
+		switch vfChoice(fmt.Sprint("hidden", i), 3) {
+		case 1:
+			f.hasTag, f.tag = true, "-"
+		case 2:
+			f.gm = 1
 		}
 		fields = append(fields, f)
 		if vfFork(vfAnd(f.name[0] >= 'A', f.name[0] <= 'Z')) && skip != 1 {
